@@ -6,10 +6,12 @@ CONSTANTS
   MaxTree = 2
   MaxFaults = 1
   Depth = 0
+  Dialect = "memory"
 INIT Init
 NEXT Next
 VIEW StateView
 CONSTRAINT PendingBound
-INVARIANTS CacheSound CacheBounded
+INVARIANTS CacheSound CacheBounded FaultClasses
 PROPERTIES SameAsDirect FaultIsError RangeWhole LegacyUnchanged AckAfterStore CacheFromStore StoreMonotone ServableStays RestartIsCold
+  DedupIsSuccess FirstAddInserts AddErrorIs5xx AckNeedsLayerOk FindErrorIs5xx MissingRowIsError SoftFaultInvisible
 CHECK_DEADLOCK FALSE
